@@ -99,6 +99,59 @@ pub fn structured() -> Vec<(String, Deviation)> {
             }
         }
     }
+    // MCS connect response: every result code x BER length widths; GCC blocks: SC_CORE of every legal and illegal
+    // length, SC_NET with many / inconsistent channel counts, blocks missing, repeated, unknown, empty
+    {
+        use vref::{gcc, mcs};
+        let cr = |result: u64, blocks: &[u8], wide: usize, node: u16| vref::framing::tpkt(&vref::framing::x224_dt(&mcs::connect_response(result, 0, &mcs::DEFAULT_RESPONSE_PARAMS, &gcc::conference_create_response(blocks, node, 1), wide)));
+        let core = |version: u32, req: Option<u32>, early: Option<u32>| gcc::sc_block_bytes(&gcc::ScBlock::Core { version, requested: req, early_flags: early });
+        let sec = gcc::sc_block_bytes(&gcc::ScBlock::Security { method: 0, level: 0 });
+        let net = |ch: Vec<u16>| gcc::sc_block_bytes(&gcc::ScBlock::Net { io_channel: 1003, channels: ch });
+        let full = [core(0x00080004, Some(1), Some(1)), sec.clone(), net(vec![])].concat();
+        for result in 0..=15u64 {
+            for wide in 0..4usize {
+                v.push((format!("connect response result {} BER width {}", result, wide), Deviation { msg: "connect_response".into(), kind: DevKind::Replace(cr(result, &full, wide, 31219)) }));
+            }
+        }
+        let raw_block = |ty: u16, body: &[u8]| {
+            let mut w = W::new();
+            w.u16le(ty).u16le((body.len() + 4) as u16).bytes(body);
+            w.done()
+        };
+        let mut variants: Vec<(String, Vec<u8>)> = vec![];
+        for clen in [0usize, 1, 3, 4, 5, 7, 8, 9, 11, 12, 13, 16, 20, 100] {
+            let body: Vec<u8> = [0x04, 0x00, 0x08, 0x00, 1, 0, 0, 0, 1, 0, 0, 0].iter().cycle().take(clen).copied().collect();
+            variants.push((format!("SC_CORE body of {} bytes", clen), [raw_block(0x0C01, &body), sec.clone(), net(vec![])].concat()));
+        }
+        for n in [1usize, 2, 3, 31, 32, 100, 1000, 8000] {
+            variants.push((format!("SC_NET with {} channels", n), [core(0x00080004, Some(1), Some(1)), sec.clone(), net((0..n).map(|i| 1004 + (i % 500) as u16).collect())].concat()));
+        }
+        for (count, present) in [(1u16, 0usize), (0xFFFF, 0), (0xFFFF, 2), (2, 1), (0, 3), (3, 2)] {
+            let mut w = W::new();
+            w.u16le(1003).u16le(count);
+            for i in 0..present {
+                w.u16le(1004 + i as u16);
+            }
+            variants.push((format!("SC_NET announcing {} channels, {} present", count, present), [core(0x00080004, Some(1), Some(1)), sec.clone(), raw_block(0x0C03, &w.0)].concat()));
+        }
+        variants.push(("no block at all".into(), vec![]));
+        variants.push(("SC_CORE only".into(), core(0x00080004, Some(1), Some(1))));
+        variants.push(("SC_NET only".into(), net(vec![])));
+        variants.push(("SC_SECURITY only".into(), sec.clone()));
+        variants.push(("SC_CORE twice".into(), [core(0x00080004, None, None), core(0x00080001, Some(3), None), sec.clone(), net(vec![])].concat()));
+        variants.push(("SC_NET twice".into(), [core(0x00080004, Some(1), None), net(vec![1004]), net(vec![])].concat()));
+        variants.push(("fifty unknown blocks then the usual ones".into(), [(0..50).flat_map(|i| raw_block(0x0C10 + i as u16, &[0u8; 4])).collect::<Vec<u8>>(), full.clone()].concat()));
+        variants.push(("empty-bodied blocks of every type".into(), [raw_block(0x0C01, &[]), raw_block(0x0C02, &[]), raw_block(0x0C03, &[])].concat()));
+        for node in [1001u16, 1002, 65535] {
+            variants.push((format!("node id {}", node), full.clone()));
+            let last = variants.len() - 1;
+            v.push((variants[last].0.clone(), Deviation { msg: "connect_response".into(), kind: DevKind::Replace(cr(0, &full, 0, node)) }));
+            variants.pop();
+        }
+        for (d, blocks) in variants {
+            v.push((format!("connect response: {}", d), Deviation { msg: "connect_response".into(), kind: DevKind::Replace(cr(0, &blocks, 0, 31219)) }));
+        }
+    }
     // disconnect provider ultimatum (every reason) in place of each message after the connect response
     for reason in 0..8u8 {
         for name in ["attach_confirm", "join_confirm", "licence"] {
@@ -251,7 +304,7 @@ impl Prop for C05 {
         json!({"idx": idx, "block": b, "config": cfg, "deviations": devs, "direct_input_hex": direct.map(|d| vref::bytes::hex(&d))})
     }
     fn rule(&self) -> String {
-        "cases = an honest setup conversation with <=1 deviation (<=2 in thorough). [cc] x224::Client::connect for offered masks {3,1}: the connection confirm with every byte offset x value set (12 boundary values + honest+-1 in quick, all 256 in thorough), every offset as 16/32-bit field in both byte orders x boundary set, every truncation, extensions {+1,+2,+1500}; [conn] the same over connect-response, attach-confirm, both join-confirms and the licence PDU for two server configurations, executed through the real mcs::Client::connect + sec::connect; [inner] each message's payload replaced by every byte string of length <=2 and every string of length 3..5 (..6 in thorough) over {00,01,02,03,04,7F,80,FF}; [frame] each whole message replaced by every string of length <=2 (<=3 in thorough) plus the alphabet strings, unframed (the TPKT / fast-path frame reader is the entry); [direct] the same strings fed to gcc::read_conference_create_response, license::client_connect and the per::read_* primitives; [structured] well-formed but unusual messages: the X.224 confirm with every negotiation type x result / failure code 0..9, 0xFF, 0x100, 2^32-1 x flags; attach and join confirms with every result code 0..15 and right / wrong echoed ids; licensing error alerts over 12 codes x 5 state transitions x 9 blob lengths with consistent length fields, every licensing message type x body length x security-header flags; a disconnect ultimatum with every reason in place of each later message; each for both offered masks / server configurations; [pairs, thorough] all pairs of {byte:=00, byte:=FF, truncate} over all offsets of all five messages. Non-trivial: the deviation changed bytes the client consumed (the outcome differs from the honest one or the mutated message was reached).".into()
+        "cases = an honest setup conversation with <=1 deviation (<=2 in thorough). [cc] x224::Client::connect for offered masks {3,1}: the connection confirm with every byte offset x value set (12 boundary values + honest+-1 in quick, all 256 in thorough), every offset as 16/32-bit field in both byte orders x boundary set, every truncation, extensions {+1,+2,+1500}; [conn] the same over connect-response, attach-confirm, both join-confirms and the licence PDU for two server configurations, executed through the real mcs::Client::connect + sec::connect; [inner] each message's payload replaced by every byte string of length <=2 and every string of length 3..5 (..6 in thorough) over {00,01,02,03,04,7F,80,FF}; [frame] each whole message replaced by every string of length <=2 (<=3 in thorough) plus the alphabet strings, unframed (the TPKT / fast-path frame reader is the entry); [direct] the same strings fed to gcc::read_conference_create_response, license::client_connect and the per::read_* primitives; [structured] well-formed but unusual messages: the MCS connect response with every result code 0..15 x 4 BER length widths, SC_CORE bodies of 0..100 bytes, SC_NET with 1..8000 channels and inconsistent counts, blocks missing / repeated / unknown / empty, node ids; the X.224 confirm with every negotiation type x result / failure code 0..9, 0xFF, 0x100, 2^32-1 x flags; attach and join confirms with every result code 0..15 and right / wrong echoed ids; licensing error alerts over 12 codes x 5 state transitions x 9 blob lengths with consistent length fields, every licensing message type x body length x security-header flags; a disconnect ultimatum with every reason in place of each later message; each for both offered masks / server configurations; [pairs, thorough] all pairs of {byte:=00, byte:=FF, truncate} over all offsets of all five messages. Non-trivial: the deviation changed bytes the client consumed (the outcome differs from the honest one or the mutated message was reached).".into()
     }
     fn assumptions(&self) -> Vec<String> {
         vec![
